@@ -15,8 +15,9 @@ RULE = ("shipped: the Surface-17 layer and every layout class defined in repetit
         "one) given to RepetitionCodeDescription.from_connectivity (exhaustive over windows). derived: Hypothesis-"
         "generated (layout, ordered list of distinct involved qubits out of the 17 device qubits, optional explicit index "
         "map) built as shuffled / reversed windows, windows plus foreign qubits, or arbitrary subsets (size 0-17). "
-        "composite: CompositeRepetitionCodeDescription over such a base with 0-3 excluded edges (mostly gates the base "
-        "keeps), 0-2 excluded qubits, only-required-parking on/off and its own index map. chains: from_chain(length) for "
+        "composite: CompositeRepetitionCodeDescription over such a base (biased to windows of >= 7 qubits) with 0-3 excluded "
+        "edges (biased to gates that share their layer with other kept gates and to gates whose removal leaves one of their "
+        "qubits in need of parking), 0-2 excluded qubits, only-required-parking on/off and its own index map. chains: from_chain(length) for "
         "every odd length 1-41 (quick) / 1-121 (thorough). Non-trivial = the kept gates touch at least two parity groups "
         "(two different ancillas); distinct = distinct canonical JSON of the case.")
 ASSUMPTIONS = [
@@ -557,6 +558,6 @@ def parts():
         Part("shipped", body_shipped, items=items_shipped, exhaustive=True),
         Part("subchains", body_derived, items=items_subchains, exhaustive=True),
         Part("derived", body_derived, strategy=strat_derived, quick=500, thorough=2500),
-        Part("composite", body_composite, strategy=strat_composite, quick=200, thorough=1000),
+        Part("composite", body_composite, strategy=strat_composite, quick=200, thorough=600),
         Part("chains", body_chain, items=items_chains, exhaustive=True),
     ]
